@@ -116,6 +116,22 @@ def run():
         if i in acc:
             raise MachineryError("MatcherTrace explains a corrupted recording (%s)" % name)
         log.append("MatcherTrace/%s -> not a behaviour" % name)
+    # MultiSet (L2 model of MultiSetEdit)
+    from props import _mset
+    srec, why = _mset.record("2x1", [[[0, 2], [1, 1]], [[0, 3], [1, 2], [2, 2]]], ["bounds", "tighten", "edits", "tighten", "bounds"])
+    if srec is None:
+        raise MachineryError("the scripted multiset run failed: %s" % why)
+    sb1 = copy.deepcopy(srec); sb1["ev"][0]["ret"][0] += 1
+    sb2 = copy.deepcopy(srec); sb2["ev"][-1]["ret"] = [srec["ev"][-1]["ret"][0], srec["ev"][-1]["ret"][1] + 1]
+    sb3 = copy.deepcopy(srec); sb3["ev"][2]["match"] = [[1, 1], [2, 1]]
+    sbads = [("wrong-first-bounds", sb1), ("wrong-last-bounds", sb2), ("not-an-assignment", sb3)]
+    acc, _ = _mset.validate([srec] + [b for _, b in sbads], "selftest-MultiSetTrace")
+    if 0 not in acc:
+        raise MachineryError("MultiSetTrace does not explain an unmodified recording: %s" % json.dumps(srec))
+    for i, (name, _) in enumerate(sbads, 1):
+        if i in acc:
+            raise MachineryError("MultiSetTrace explains a corrupted recording (%s)" % name)
+        log.append("MultiSetTrace/%s -> not a behaviour" % name)
     # Dispatch (L2 model of get_formatter): a real recording; a wrong answer must be rejected
     from props import _dispatch
     u = {"has": [["VA"], ["object"], []], "subtypes": [[], [1], [2, 1]], "reg": [2], "mro": ["VB", "VA", "object"],
